@@ -73,10 +73,69 @@ def mentions(t, sub_t):
     return term_contains(t, lambda x: x == sub_t)
 
 
+class _LazyOrder(Order):
+    """An order over the facts that dominate a program point which, when a comparison cannot be proved from them, tries once more with the literals that every
+    satisfiable disjunct of the point's exact path condition shares: after `if !(a != M && n > a) { .. }` and a later `a != M`, `n <= a` holds on every path
+    although no single branch says so."""
+
+    def __init__(self, fs, extra, more):
+        Order.__init__(self, fs, extra_ge0=extra)
+        self._more = more
+        self._extra = extra
+        self._base = set(fs)
+        self._wide = None
+        self._added = []
+
+    def add_fact(self, f):
+        if hasattr(self, "_added"):
+            self._added.append(f)
+        return Order.add_fact(self, f)
+
+    def _widened(self):
+        if self._wide is None:
+            more = self._more() if self._more is not None else None
+            self._wide = False
+            if more:
+                new = set(more) - self._base
+                if new:
+                    o = Order(self._base | new, extra_ge0=self._extra)
+                    for f in self._added:
+                        o.add_fact(f)
+                    self._wide = o
+        return self._wide
+
+    def le(self, a, b):
+        if Order.le(self, a, b):
+            return True
+        w = self._widened()
+        return bool(w) and w.le(a, b)
+
+
+def common_path_literals(ev, e, immut=None):
+    """literals shared by every satisfiable disjunct of the exact path condition of an entry, in its own frame (None when that condition is not available)"""
+    import dnf as D
+    res, body = e.get("res"), e.get("body")
+    if res is None or body is None or e.get("bb") is None:
+        return None     # (for an entry of an inlined callee: the condition inside that callee's frame)
+    try:
+        d = D.block_dnf(ev, res, body, e["bb"], lit=lambda f: canon(f, immut))
+    except Exception:
+        return None
+    if not d:
+        return None
+    d = [c for c in d if not D.conj_unsat(c)]
+    if not d or len(d) > 24:
+        return None
+    common = set(d[0])
+    for c in d[1:]:
+        common &= set(c)
+    return set(f for f in common if isinstance(f, tuple) and f and f[0] == "cmp")
+
+
 def order_for(ctx, ev, e, extra=(), immut=None):
     fs = ctx.facts_of(ev, e)
     fs = set(canon(f, immut) for f in fs)
-    return Order(fs, extra_ge0=extra), fs
+    return _LazyOrder(fs, extra, lambda: common_path_literals(ev, e, immut)), fs
 
 
 def ok_cas_facts(fs):
